@@ -142,3 +142,29 @@ def inflate(spec, m):
     N = n * m
     out["charges"] = [round((base + 0.0001 * (i + 1)) * (-1 if i % 2 else 1), 6) for i in range(N)]
     return out
+
+
+def pad(spec, before, after):
+    """the same structure embedded in a long list of plain atoms (type 0, no terms): `before` atoms in front, `after`
+    behind - a large structure with a sparse topology, as a solvated fragment or a framework with a few typed defects"""
+    import copy
+    n = len(spec["pos"])
+    if n == 0 or before + after == 0:
+        return spec
+    out = copy.deepcopy(spec)
+    nx = len(spec["extra_atom_labels"])
+
+    def plain(k, i):
+        return [0.011 * (i % 97) + 0.3, 0.007 * (i % 89) + 0.2, 0.013 * (i % 83) + 0.1]
+    front = list(range(before))
+    out["pos"] = [plain(0, i) for i in front] + out["pos"] + [plain(1, before + n + i) for i in range(after)]
+    out["atom_types"] = [0] * before + out["atom_types"] + [0] * after
+    out["groups"] = [0] * before + out["groups"] + [0] * after
+    if nx:
+        out["extra_atom_fields"] = [["."] * nx for _ in front] + out["extra_atom_fields"] + [["."] * nx for _ in range(after)]
+    for kind in M.KINDS:
+        out[kind + "s"] = [[x + before for x in t] for t in spec[kind + "s"]]
+    N = before + n + after
+    base = abs(spec["charges"][0]) - 0.001 if spec["charges"] else 0.0
+    out["charges"] = [round((base + 0.0001 * (i + 1)) * (-1 if i % 2 else 1), 6) for i in range(N)]
+    return out
